@@ -1,5 +1,6 @@
 import PonyVerif.Drive.Util
 import PonyVerif.Model.RepRead
+import PonyVerif.Model.CollRead
 /-
   line-protocol entry for the C21 model: one request = attribute declaration, the list of (committed table contents,
   reader operation) pairs; the reply lists per step the result and the reader session afterwards.
@@ -95,6 +96,40 @@ def handle (j : Json) : Except String Json := do
     let (_, outs) := steps.foldl (fun (acc : Sess × List Json) st =>
       let (s', r) := exec cfg guarded acc.1 st.1 st.2
       (s', Json.mkObj [("res", resJson r), ("snap", snapJson attrs cids pids s')] :: acc.2)) (Sess.init, [])
+    pure (Json.mkObj [("steps", .arr outs.reverse.toArray)])
+  | "m2m" =>
+    -- many-to-many read set (Model/CollRead.lean): guards, steps = (link table, operation)
+    let g : PonyVerif.Model.CollRead.Guards := ⟨← argBool j "addChecks", ← argBool j "prefetchChecks", ← argBool j "loadSkipsFull"⟩
+    let ids ← natList (← j.getObjVal? "ids")
+    let steps ← (← argArr j "steps").mapM (fun st => do
+      let db ← match ← st.getObjVal? "db" with
+        | .arr rows => rows.toList.mapM (fun r => do
+            match r with
+            | .arr #[a, b] => pure ((← fromJson? a : Nat), (← fromJson? b : Nat))
+            | _ => throw "link: [q, t]")
+        | _ => throw "db: array"
+      let o ← st.getObjVal? "op"
+      let k ← argStr o "k"
+      let side ← argBool o "side"
+      let op ← match k with
+        | "load" => pure (PonyVerif.Model.CollRead.Op.load side (← argNat o "o"))
+        | "iter" => pure (PonyVerif.Model.CollRead.Op.iter side (← argNat o "o"))
+        | "len" => pure (PonyVerif.Model.CollRead.Op.len side (← argNat o "o"))
+        | "prefetch" => pure (PonyVerif.Model.CollRead.Op.prefetch side (← natList (← o.getObjVal? "objs")))
+        | _ => throw s!"unknown m2m op {k}"
+      pure (db, op))
+    let snap (s : PonyVerif.Model.CollRead.Sess) : Json :=
+      .arr ([false, true].flatMap (fun side => ids.filterMap (fun o => (s.sets side o).map (fun sd =>
+        Json.mkObj [("side", .bool side), ("o", jNat o), ("items", .arr (sd.items.map jNat).toArray), ("full", .bool sd.full),
+                    ("count", match sd.count with | none => .null | some n => jNat n)])))).toArray
+    let (_, outs) := steps.foldl (fun (acc : PonyVerif.Model.CollRead.Sess × List Json) st =>
+      let (s', r) := PonyVerif.Model.CollRead.exec g acc.1 st.1 st.2
+      let rj := match r with
+        | .ok => Json.mkObj [("ok", .bool true)]
+        | .items l => Json.mkObj [("items", .arr (l.map jNat).toArray)]
+        | .num n => Json.mkObj [("num", jNat n)]
+        | .err _ => Json.mkObj [("err", "UnrepeatableReadError")]
+      (s', Json.mkObj [("res", rj), ("snap", snap s')] :: acc.2)) (PonyVerif.Model.CollRead.Sess.init, [])
     pure (Json.mkObj [("steps", .arr outs.reverse.toArray)])
   | _ => throw s!"unknown op {op}"
 end PonyVerif.Drive.C21
